@@ -299,7 +299,7 @@ class World(object):
   def ev(self, *a):
     """Appends a trace record; its last element is a snapshot taken BEFORE the traced call runs:
     p/i/a/n = private pending, idle, heap members, size (diagnostic reads, None when unreadable);
-    cs = state of every mock channel by id, xo = expansion-created channels whose Open() is still in progress."""
+    cs = state of every mock channel by id, t = virtual time, out = requests held by the mock channels, xo = expansion-created channels whose Open() is still in progress."""
     rec = list(a)
     info = {'p': None, 'i': None, 'a': None, 'n': None}
     sink = getattr(self, 'sink', None)
@@ -318,6 +318,8 @@ class World(object):
       except Exception:
         pass
     info['cs'] = [int(c.state) for c in self.chans]
+    info['t'] = self.clock.now
+    info['out'] = len(self.outstanding)
     info['xo'] = [c.cid for c in self.opening if c.cause == 'expand']
     rec.append(info)
     self.events.append(rec)
